@@ -239,7 +239,9 @@ func suiteC11(s *Suite, rng *Rng, tier string) {
 				mut("Cu+1", func(p *gabi.ProofD) { p.NonRevocationProof.Cu.Add(p.NonRevocationProof.Cu, bi(1)) })
 				for _, n := range nrOrder[1:] {
 					nn := n
-					mut("resp-"+nn+"+1", func(p *gabi.ProofD) { p.NonRevocationProof.Responses[nn].Add(p.NonRevocationProof.Responses[nn], bi(1)) })
+					mut("resp-"+nn+"+1", func(p *gabi.ProofD) {
+						p.NonRevocationProof.Responses[nn].Add(p.NonRevocationProof.Responses[nn], bi(1))
+					})
 				}
 				mut("resp-deleted", func(p *gabi.ProofD) { delete(p.NonRevocationProof.Responses, "delta") })
 				// an "alpha" entry supplied by the prover is overwritten by the verifier (SetExpected): no effect
